@@ -17,6 +17,7 @@ use pyo3::prelude::*;
 use socket2::{Domain, Protocol, Socket, Type};
 use std::net::SocketAddr;
 use std::time::Duration;
+use std::time::Instant;
 
 pub(crate) trait SnmpSocket
 where
@@ -139,25 +140,53 @@ where
         // Get buffer from pool
         let mut h = get_buffer_pool().acquire();
         let buf = h.as_mut();
-        // We can catch unwanted replies, so do it in a loop
-        loop {
+        // We can catch unwanted replies, so do it in a loop.
+        // In blocking mode the socket timeout covers the whole call,
+        // not every single recv, so it is shrunk after each unwanted reply
+        // and restored on return.
+        let started = Instant::now();
+        let mut timeout: Option<Duration> = None;
+        let r: PyResult<PyObject> = loop {
             // Nested scope to release io early after receiving message
             let data = {
                 let io = self.get_io();
-                Self::recv_socket(io, buf)?
+                match Self::recv_socket(io, buf) {
+                    Ok(x) => x,
+                    Err(e) => break Err(e.into()),
+                }
             };
             // Decode message
-            let msg = Self::Message::try_from(data)?;
+            let msg = match Self::Message::try_from(data) {
+                Ok(x) => x,
+                Err(e) => break Err(e.into()),
+            };
             match self.unwrap_pdu(msg, data) {
                 Some(ref pdu) => {
-                    return Python::with_gil(|py| Ok(T::to_python(pdu, iter, py)?.into()));
+                    break Python::with_gil(|py| Ok(T::to_python(pdu, iter, py)?.into()));
                 }
                 None => {
                     buf.reset();
+                    if timeout.is_none() {
+                        timeout = self.get_io().read_timeout().ok().flatten();
+                    }
+                    if let Some(t) = timeout {
+                        let left = t.saturating_sub(started.elapsed());
+                        // Zero timeval means "block forever"
+                        if left.as_micros() == 0 {
+                            break Err(SnmpError::WouldBlock.into());
+                        }
+                        if let Err(e) = self.get_io().set_read_timeout(Some(left)) {
+                            break Err(SnmpError::SocketError(e.to_string()).into());
+                        }
+                    }
                     continue;
                 }
             }
+        };
+        if timeout.is_some() {
+            let _ = self.get_io().set_read_timeout(timeout);
         }
+        r
     }
 
     fn send_request<'a, T, V>(&mut self, req: V, py: Python) -> PyResult<()>
